@@ -475,6 +475,12 @@ impl RequestIdManager {
 		self.id_kind.into_id(self.current_id.next())
 	}
 
+	/// Reserves `len` consecutive request IDs for the entries of a batch and returns the first one,
+	/// so that no later request gets an ID that a batch entry in flight is using.
+	pub fn next_batch_request_id(&self, len: u64) -> Id<'static> {
+		self.id_kind.into_id(self.current_id.next_n(len))
+	}
+
 	/// Get a handle to the `IdKind`.
 	pub fn as_id_kind(&self) -> IdKind {
 		self.id_kind
@@ -509,8 +515,14 @@ impl CurrentId {
 	}
 
 	fn next(&self) -> u64 {
+		self.next_n(1)
+	}
+
+	/// Returns the next ID and skips the `n - 1` IDs after it.
+	fn next_n(&self, n: u64) -> u64 {
+		let n = usize::try_from(n).unwrap_or(usize::MAX).max(1);
 		self.0
-			.fetch_add(1, Ordering::Relaxed)
+			.fetch_add(n, Ordering::Relaxed)
 			.try_into()
 			.expect("usize -> u64 infallible, there are no CPUs > 64 bits; qed")
 	}
